@@ -189,6 +189,7 @@ def write_evidence(prop, tier_, t0, merged, rule, floor, extra=None, assumptions
         'anchors_reached': merged['anchors'],
         'floor_distinct_nontrivial': floor,
         'known_findings_matched': known or {},
+        'notes': list(merged.get('notes') or [])[:60],
     }
     if extra:
         cov.update(extra)
